@@ -6,3 +6,6 @@ mkdir -p bin/helpers
 export GOFLAGS=-mod=mod GOPROXY=off
 ( cd harness && go build -o ../bin/helpers/argvecho ./cmd/helpers/argvecho )
 gcc -O1 -o bin/helpers/exitsig harness/cmd/helpers/exitsig.c
+mkdir -p bin/helpers-c22
+gcc -O1 -o bin/helpers-c22/c22name harness/cmd/helpers/tagecho.c
+cp bin/helpers-c22/c22name bin/helpers-c22/cpuarch
